@@ -44,7 +44,7 @@ def states(tier):
     idv = [0, 1, 54321]
     trip = [t for t in itertools.permutations(idv, 3)] + [(x, x, x) for x in idv]
     S = []
-    base = dict(ids=(0, 0, 0, 0, 0, 0), setsid=0, cwd='root', stdin='null', env='three', sudo=0, logname=0, host='-', chain='', ptyowner=0, orphan=0, tz='VRF-3:30', newpgrp=0)
+    base = dict(ids=(0, 0, 0, 0, 0, 0), setsid=0, cwd='root', stdin='null', env='three', sudo=0, logname=0, host='-', chain='', ptyowner=0, orphan=0, tz='VRF-3:30', newpgrp=0, pwd='none', forked=0)
     # (b1) ids x gids
     for u in trip:
         for g in trip:
@@ -67,6 +67,14 @@ def states(tier):
     for np in (0, 1):
         for tz in ('UTC', 'VRF-3:30', 'ABC5DEF'):
             S.append(dict(base, newpgrp=np, tz=tz, setsid=0))
+    # (b7) $PWD naming the working directory exactly / by an alias / wrongly; evaluation in a forked child after a first evaluation in the parent
+    for pw in ('exact', 'dotalias', 'symlink', 'other'):
+        for c in ('d300', 'root'):
+            S.append(dict(base, pwd=pw, cwd=c))
+    for fk in (1,):
+        for ss in (0, 1):
+            for u in ((0, 0, 0), (1, 54321, 0)):
+                S.append(dict(base, forked=fk, setsid=ss, ids=u + (1, 0, 54321), stdin='pty', ptyowner=1))
     # (b5) ancestor chain of length one: orphaned process (parent is init / a subreaper), with and without a renamed chain above
     for ch in ('', 'alpha', 'alpha/beta b'):
         for ss in (0, 1):
@@ -81,7 +89,7 @@ def states(tier):
 
 def spec_of(st, ds, work):
     parts = ['ids=%s' % ','.join(map(str, st['ids'])), 'setsid=%d' % st['setsid'], 'cwd=' + st['cwd'], 'stdin=' + st['stdin'], 'env=' + st['env'], 'sudo=%d' % st['sudo'], 'logname=%d' % st['logname'],
-             'host=' + st['host'], 'ptyowner=%d' % st['ptyowner'], 'orphan=%d' % st.get('orphan', 0), 'tz=' + st.get('tz', 'UTC'), 'newpgrp=%d' % st.get('newpgrp', 0), 'work=' + work, 'ds=' + ','.join(hx(d) for d in ds)]
+             'host=' + st['host'], 'ptyowner=%d' % st['ptyowner'], 'orphan=%d' % st.get('orphan', 0), 'tz=' + st.get('tz', 'UTC'), 'newpgrp=%d' % st.get('newpgrp', 0), 'pwd=' + st.get('pwd', 'none'), 'forked=%d' % st.get('forked', 0), 'work=' + work, 'ds=' + ','.join(hx(d) for d in ds)]
     if st['chain']:
         parts.append('chain=' + '/'.join(hx(n) for n in st['chain'].split('/')))
     return ';'.join(parts)
@@ -227,7 +235,7 @@ def run(ck):
     samples = []
     for st, (out, r, reports) in zip(S, pmap(one, S)):
         evals += 1
-        tag = 'tz=%s,pg=%d,' % (st.get('tz', 'UTC'), st.get('newpgrp', 0)) + 'ids=%s,sid=%d,cwd=%s,stdin=%s,env=%s,sudo=%d,logname=%d,host=%s,chain=%s,orphan=%d' % ('/'.join(map(str, st['ids'])), st['setsid'], st['cwd'], st['stdin'], st['env'], st['sudo'], st['logname'], st['host'][:8], st['chain'], st.get('orphan', 0))
+        tag = 'tz=%s,pg=%d,pwd=%s,forked=%d,' % (st.get('tz', 'UTC'), st.get('newpgrp', 0), st.get('pwd', 'none'), st.get('forked', 0)) + 'ids=%s,sid=%d,cwd=%s,stdin=%s,env=%s,sudo=%d,logname=%d,host=%s,chain=%s,orphan=%d' % ('/'.join(map(str, st['ids'])), st['setsid'], st['cwd'], st['stdin'], st['env'], st['sudo'], st['logname'], st['host'][:8], st['chain'], st.get('orphan', 0))
         if out is None or reports:
             ck.violation('C12:abort:%s' % tag, {'state': st, 'rc': r.returncode, 'stderr': r.stderr.decode('latin-1')[-400:], 'sanitizer': reports[:1]})
             continue
